@@ -11,6 +11,13 @@ DECL = [
     'import "libx.so" { int ext(int a); }; const double PI2 = 2 * M_PI; int arr2[2][3]; int arr3[id_t];',
     'int sw(int a) { if (a) if (a > 1) return 1; else return 2; return 0; }',
 ]
+# one declaration each, over every type keyword and prefix (valid and invalid combinations): a compound seed that fails early hides what follows it
+DECL += ['string s;', 'meta string ms;', 'const string cs = "a";', 'void vf(string p) { }', 'struct { string f; } rs;', 'string sa[2];', 'typedef string tstr; tstr ts;',
+         'hybrid clock hc;', 'urgent chan uc;', 'broadcast chan bc;', 'urgent broadcast chan ubc[2];', 'meta int mi;', 'const double cd = 0.5;', 'double da[2] = {0.1, 0.2};', 'scalar[3] sv;',
+         'typedef scalar[2] st; st sx;', 'int[0,1] bi;', 'const int ca[2] = {1, 2};', 'clock ck[3];', 'chan c9; chan priority c9 < default;', 'int pg; progress { pg; }', 'void vv() { }',
+         'bool bf(bool p) { return !p; }', 'double df(double p) { return p * 2.0; }', 'struct { int a; struct { int b; } in; } nest;', 'typedef struct { int a; } TS; TS tsv = {1}; TS tsa[2];',
+         'int &ref;', 'const clock cc;', 'meta clock mc;', 'urgent int ui;', 'broadcast int bi2;', 'void v;', 'int f2(int a[2], int &b[2]) { return a[0] + b[1]; }', 'const void cv;', 'meta chan mch;',
+         'hybrid int hi;', 'urgent urgent chan uu;', 'const const int cci = 1;', 'struct { } es;', 'scalar[0] s0;', 'int[5,1] rev;', 'clock xc = 1.5;', 'chan ch2 = 1;']
 EXPR = ['g == 1', 'x <= 3 && g > 0', 'a[g] + f(1, g, 2) * 2', 'forall (i : int[0,2]) a[i] > 0', 'b ? g : 1', 's.a == 1 && s.b', 'g = 1, b = false', 'c!', 'd[g]?',
         "x' == 0", 'exists (j : id_t) j == g', 'sum (k : int[0,1]) k + g', '(g + 1) * -g % 3 << 1', 'g++ + --g', 'not b or b imply b', 'P.L and P.v > 0', 'deadlock', 'x - y < 3', 'true', '1 && g == 2', "P'.L", "P'.v > 0 and g", "(P).L", "s'.a", 'forall (i : bool) a[0] > 0', 'exists (k : clock) true', 'sum (q : double) 1', 'forall (i : S) true']
 SYSTEM = ['P1 = P(1); system P1;', 'system P;', 'P1 = P(1); P2(int[0,1] q) = P(q); system P1 < P2;', 'Q = R(); system Q, P;', 'system P; progress { g; } gantt { G(i:int[0,1]): g > i -> 1; }']
